@@ -156,10 +156,30 @@ def ops_history(r, lower, base, n, span=60):
 
 
 def g_overlay(r):
+    if r.random() < 0.15:
+        return g_overlay_far(r)
     base = r.choice([0, 0, 0, 0, 500, 2 ** 32 - 30, TOP - 400])
     blocks, cover = base_blocks(r, base)
     n = r.choice([1, 2, 3, 4, 6, 8, 10, 14, 20])
     ops = ops_history(r, cover, base, n)
+    return "overlay %s %d %s" % (fmt_blocks(blocks), len(ops), " ".join(ops))
+
+
+def g_overlay_far(r):
+    """two regions at least 2^63 bytes apart (base blocks and upper-layer stores in both), interleaved operations"""
+    lo = r.choice([0, 7, 1000, 2 ** 32 - 30])
+    hi = r.choice([2 ** 63 + 2 ** 62, TOP - 400, 2 ** 63 + 2000])
+    b1, c1 = base_blocks(r, lo, 40)
+    b2, c2 = base_blocks(r, hi, 40)
+    o1 = ops_history(r, c1, lo, r.choice([2, 3, 5, 8]), 40)
+    o2 = ops_history(r, c2, hi, r.choice([2, 3, 5, 8]), 40)
+    blocks = b1 + b2
+    r.shuffle(blocks)
+    ops = []
+    while o1 or o2:
+        src = o1 if (o1 and (not o2 or r.random() < 0.5)) else o2
+        ops.append(src.pop(0))
+    ops.append("bl")
     return "overlay %s %d %s" % (fmt_blocks(blocks), len(ops), " ".join(ops))
 
 
